@@ -153,6 +153,8 @@ func C01(tier rt.Tier) int {
 			{name: "level-mem", kind: LevelMem, paths: Paths("ab", 4)[:13], vals: []string{"x"}, flush: true, depth: 4, version: 1},
 			{name: "level-pnodedb", kind: LevelP, paths: Paths("ab", 4)[:13], vals: []string{"x"}, flush: true, depth: 4, version: 1},
 			{name: "mem-versions", kind: Mem, paths: Paths("ab", 4)[:9], vals: []string{"x", "y:\x00:z"}, bump: 2, depth: 4, version: 0},
+			{name: "pnodedb-direct", kind: PDirect, paths: Paths("ab", 4)[:13], vals: []string{"x"}, flush: true, depth: 4, version: 1},
+			{name: "level-over-level", kind: LevelL, paths: Paths("ab", 4)[:9], vals: []string{"x"}, flush: true, depth: 4, version: 1},
 		}
 	} else {
 		runs = []alphabet{
@@ -161,6 +163,8 @@ func C01(tier rt.Tier) int {
 			{name: "level-mem", kind: LevelMem, paths: p2, vals: []string{"x", "y:\x00:z"}, flush: true, depth: 5, version: 1},
 			{name: "level-pnodedb", kind: LevelP, paths: p2, vals: []string{"x", "y:\x00:z"}, flush: true, depth: 5, version: 1},
 			{name: "mem-versions", kind: Mem, paths: p2, vals: []string{"x", "y:\x00:z"}, bump: 3, depth: 5, version: -1},
+			{name: "pnodedb-direct", kind: PDirect, paths: p2, vals: []string{"x", "y:\x00:z"}, flush: true, depth: 5, version: 1},
+			{name: "level-over-level", kind: LevelL, paths: p2, vals: []string{"x"}, flush: true, depth: 5, version: 1},
 		}
 	}
 	per := 25 * time.Second
